@@ -40,12 +40,13 @@ type call struct {
 }
 
 type target struct {
-	id    string // stable token: <source>:<class>:<key name>
-	class string
-	calls []call
-	cost  int    // 0 fast, 1 medium, 2 slow, 3 very slow
-	fresh func() // optional: replace the shared object by a newly constructed, never used one
-	guard []*guarded
+	id     string // stable token: <source>:<class>:<key name>
+	class  string
+	calls  []call
+	cost   int    // 0 fast, 1 medium, 2 slow, 3 very slow
+	fresh  func() // optional: replace the shared object by a newly constructed, never used one
+	noSelf bool   // the shared object must not be touched before the first window
+	guard  []*guarded
 }
 
 type mismatch struct {
@@ -381,7 +382,7 @@ func runTarget(rep *report, seed uint64, t *target, light bool) {
 	if t == nil || len(t.calls) == 0 {
 		return
 	}
-	if t.cost <= 1 && !light {
+	if t.cost <= 1 && !light && !t.noSelf {
 		selfCheck(rep, seed, t)
 		checkGuards(rep, t)
 	}
